@@ -1,6 +1,7 @@
 (* Model of the bundled C++ original, huffman/reference/sys/src/teeworlds/huffman.cpp:
-   CHuffman::Compress. Proof-only (not extracted: the harness runs the real C++ through
-   the crate libtw2-huffman-reference).
+   CHuffman::Compress and CHuffman::Decompress (with the decode LUT of CHuffman::Init).
+   Extracted and run against the real C++ (crate libtw2-huffman-reference) on the harness'
+   rcomp / rdec cases.
 
    m_aNodes[Sym].m_Bits / m_NumBits are taken from a table t through get_symbol, i.e. the
    theorem about it (Props/C07.v, C07_ref_compress) says: IF the reference holds the same
@@ -67,3 +68,108 @@ Fixpoint ref_syms (t : table) (syms : list Z) (bits bc : Z) (room : nat) : res u
 
 Definition ref_compress (t : table) (input : bytes) (cap : nat) : res unit bytes :=
   ref_syms t (input ++ [EOF]) 0 0 cap.
+
+(* ---------- CHuffman::Decompress ----------
+   A node pointer is the node's index; `pNode->m_NumBits != 0` holds exactly for the 257 symbol
+   nodes (ConstructTree gives them 0xFFFFFFFF, Setbits_r their depth, inner nodes keep 0), i.e.
+   for idx < NUM_SYMBOLS; m_NumBits of a symbol node is its code length, m_Symbol its index;
+   m_aLeafs of an inner node are its two children. *)
+
+(* Init: m_apDecodeLut[i] - from the start node follow the low bits of i until a symbol node
+   is reached or HUFFMAN_LUTBITS = 10 steps are done *)
+Fixpoint lut_walk (t : table) (k : nat) (idx bits : Z) : res unit Z :=
+  match k with
+  | O => Ok idx
+  | S k' =>
+    match lookup t idx with
+    | None => Panic site_ref_ub
+    | Some nd =>
+      let c := if Z.testbit bits 0 then snd nd else fst nd in     (* m_aLeafs[Bits&1]; Bits >>= 1 *)
+      if c <? NUM_SYMBOLS then Ok c else lut_walk t k' c (Z.shiftr bits 1)
+    end
+  end.
+Definition lut (t : table) (i : Z) : res unit Z := lut_walk t 10 ROOT_IDX i.
+
+(* {B} while(Bitcount < 24 && pSrc != pSrcEnd) { Bits |= ( *pSrc++) << Bitcount; Bitcount += 8; } *)
+Fixpoint ref_fill (bits bc : Z) (src : bytes) : Z * Z * bytes :=
+  match src with
+  | [] => (bits, bc, src)
+  | b :: r =>
+    if bc <? 24 then ref_fill (Z.lor bits (Z.shiftl b bc mod two32)) ((bc + 8) mod two32) r
+    else (bits, bc, src)
+  end.
+
+(* walk the tree bit by bit: pNode = &m_aNodes[pNode->m_aLeafs[Bits&1]]; Bitcount--; Bits >>= 1;
+   if(pNode->m_NumBits) break; if(Bitcount == 0) return -1; *)
+Fixpoint ref_slow (fuel : nat) (t : table) (idx bits bc : Z) : res unit (Z * Z * Z) :=
+  match fuel with
+  | O => OutOfFuel
+  | S f =>
+    match lookup t idx with
+    | None => Panic site_ref_ub
+    | Some nd =>
+      let c := if Z.testbit bits 0 then snd nd else fst nd in
+      let bc' := (bc - 1) mod two32 in
+      let bits' := Z.shiftr bits 1 in
+      if c <? NUM_SYMBOLS then Ok (c, bits', bc')
+      else if bc' =? 0 then Err tt
+      else ref_slow f t c bits' bc'
+    end
+  end.
+
+(* one iteration of while(1) decodes one symbol; out is newest first, room = pDstEnd - pDst *)
+Fixpoint ref_dec_loop (fuel : nat) (t : table) (bits bc : Z) (src : bytes) (out : bytes) (room : nat)
+  : res unit bytes :=
+  match fuel with
+  | O => OutOfFuel
+  | S f =>
+    (* {A} *)
+    let pn0 := if 10 <=? bc then Some (lut t (Z.land bits 1023)) else None in
+    (* {B} *)
+    let '(bits1, bc1, src1) := ref_fill bits bc src in
+    (* {C} *)
+    let pn := match pn0 with Some p => p | None => lut t (Z.land bits1 1023) end in
+    match pn with
+    | Ok idx =>
+      (* {D} *)
+      let step :=
+        if idx <? NUM_SYMBOLS then
+          match get_symbol t idx with
+          | Ok (_, n) => Ok (idx, Z.shiftr bits1 n, (bc1 - n) mod two32)
+          | Err e => Err e | Panic p => Panic p | OutOfFuel => OutOfFuel
+          end
+        else ref_slow 600 t idx (Z.shiftr bits1 10) ((bc1 - 10) mod two32) in
+      match step with
+      | Ok (s, bits2, bc2) =>
+        if s =? EOF then Ok (rev out)                       (* pNode == pEof *)
+        else match room with
+             | O => Err tt                                  (* pDst == pDstEnd *)
+             | S r => ref_dec_loop f t bits2 bc2 src1 (s :: out) r    (* *pDst++ = pNode->m_Symbol *)
+             end
+      | Err e => Err e | Panic p => Panic p | OutOfFuel => OutOfFuel
+      end
+    | Err e => Err e | Panic p => Panic p | OutOfFuel => OutOfFuel
+    end
+  end.
+
+Definition ref_decompress (fuel : nat) (t : table) (input : bytes) (cap : nat) : res unit bytes :=
+  ref_dec_loop fuel t 0 0 input [] cap.
+
+(* every leaf sits at the depth its stored num_bits says, on every path (the table is a tree
+   whose leaves know their depth); decidable *)
+Fixpoint depths_ok (t : table) (d : nat) (idx depth : Z) : bool :=
+  if idx <? NUM_SYMBOLS then
+    match lookup t idx with
+    | Some nd => snd (to_symbol_repr nd) =? depth
+    | None => false
+    end
+  else
+    match d with
+    | O => false
+    | S d' =>
+      match lookup t idx with
+      | Some nd => depths_ok t d' (fst nd) (depth + 1) && depths_ok t d' (snd nd) (depth + 1)
+      | None => false
+      end
+    end.
+Definition tree_table (t : table) : bool := depths_ok t 24 ROOT_IDX 0.
